@@ -14,6 +14,10 @@ FB = [
     dict(site="c1.fb_count", owner="c1", meth="get_count", key=None, hint="int", nt="/components/c1/count", topic="IntegerTopic"),
     dict(site="robot.fb_rv", owner="robot", meth="get_rv", key=None, hint=bool, nt="/robot/rv", topic="BooleanTopic"),
     dict(site="robot.fb_status", owner="robot", meth="status", key="get_status", hint=str, nt="/robot/get_status", topic="StringTopic"),
+    # a second str feedback on the same owner, later in attribute order, and a str one on a component
+    dict(site="robot.fb_text", owner="robot", meth="text", key=None, hint=str, nt="/robot/text", topic="StringTopic"),
+    dict(site="c2.fb_label", owner="c2", meth="get_label", key=None, hint=str, nt="/components/c2/label", topic="StringTopic"),
+    dict(site="c2.fb_zname", owner="c2", meth="zname", key=None, hint=str, nt="/components/c2/zname", topic="StringTopic"),
 ]
 
 
@@ -36,7 +40,7 @@ def _mk_getter(H, spec, state):
         elif h is bool:
             v = c.boolean(f"v_{site}_{n}")
         elif h is str:
-            v = f"s{n}"
+            v = f"{site}#{n}"
         else:
             # a pre-allocated buffer updated in place and returned every time (same object, new contents)
             buf = state.setdefault(("buf", id(self)), [0.0, 0.0])
@@ -166,7 +170,10 @@ class C11(LoopSpec):
         if tier == "quick":
             return [mkjob("R1", 3, True, fms=True, nt_snapshot=True),
                     mkjob("R2", 3, False, fms=True, nt_snapshot=True),
-                    mkjob("R1", 3, True, fms=True, nt_snapshot=True, faults=1, fault_sites=fs, fault_patterns=["later", "always"])]
+                    mkjob("R1", 3, True, fms=True, nt_snapshot=True, faults=1, fault_sites=fs, fault_patterns=["later", "always"]),
+                    # other callbacks of the iteration raising must not stop the feedbacks from being published
+                    mkjob("R1", 3, True, fms=True, nt_snapshot=True, faults=1, use_teleop_in_autonomous=True, fault_patterns=["always"],
+                          fault_sites=["robot.teleopPeriodic", "c1.execute", "auto.on_iteration", "robot.disabledPeriodic", "robot.testPeriodic"])]
         return [mkjob("R1", 5, True, fms=True, nt_snapshot=True), mkjob("R2", 4, True, fms=True, nt_snapshot=True),
                 mkjob("R3", 5, False, fms=True, nt_snapshot=True),
                 mkjob("R1", 4, True, fms=True, nt_snapshot=True, faults=2, fault_sites=fs, fault_patterns=["first", "later", "always"])]
